@@ -96,7 +96,11 @@ class FakeWriter:
         return None
 
     async def start_tls(self, ctx):
-        raise ConnectionError('no TLS in the harness')
+        # no TLS in the harness -- unless a scenario asks for a handshake that "succeeds": then the transport is upgraded and,
+        # exactly as with asyncio's StreamWriter.start_tls, whatever the StreamReader had buffered before stays buffered
+        if not getattr(self, 'fake_tls_ok', False):
+            raise ConnectionError('no TLS in the harness')
+        self.tls_active = True
 
 
 _LIT = re.compile(rb'\{(\d+)\}\r\n$')
